@@ -250,7 +250,15 @@ class Ctx:
         if env:
             e.update(env)
         restarts = 0
+        hangs_confirmed = 0
+        hangs_total = 0
         while skip < ncases:
+            if hangs_total >= 30:
+                # the binary really hangs (>= 3 hangs confirmed alone) and keeps doing so:
+                # do not spend hours on the rest; they are reported as assumed timeouts
+                for k in range(skip, ncases):
+                    results[k] = {"outcome": "timeout", "assumed": True}
+                break
             open(obs_path, "w").close()
             p = subprocess.Popen([binpath, "replay", cases_path, obs_path, str(skip)], env=e,
                                  stdout=subprocess.DEVNULL, stderr=subprocess.PIPE)
@@ -265,7 +273,7 @@ class Ctx:
                     sz = os.path.getsize(obs_path)
                     if sz != last_size:
                         last_size = sz; last_change = time.time()
-                    elif time.time() - last_change > per_case_timeout:
+                    elif time.time() - last_change > (per_case_timeout if hangs_confirmed < 3 else min(per_case_timeout, 5)):
                         hung = True
                         p.kill(); p.wait()
                         break
@@ -290,17 +298,62 @@ class Ctx:
             # the case that was started but not finished is the culprit
             bad = started if (started is not None and started > done) else skip
             if hung:
-                results[bad] = {"outcome": "timeout"}
+                # confirm on its own with a much longer budget before calling it a hang:
+                # a loaded machine must not turn a slow case into a violation
+                # (callers that already grant a long per-case budget are taken at their word)
+                confirmed = None
+                if per_case_timeout <= 30 and hangs_confirmed < 3:
+                    confirmed = self._confirm_case(binpath, cases_path, bad, e, 120, tag)
+                if confirmed is None:
+                    hangs_total += 1
+                    if per_case_timeout > 30 or hangs_confirmed < 3:
+                        hangs_confirmed += 1
+                results[bad] = confirmed if confirmed is not None else {"outcome": "timeout"}
             else:
                 rc = p.returncode
                 err = (p.stderr.read() or b"").decode("utf8", "replace")[-400:] if p.stderr else ""
                 results[bad] = {"outcome": "abort", "signal": -rc if rc and rc < 0 else rc, "stderr": err}
             skip = bad + 1
             restarts += 1
-            if restarts > 200:
-                raise ToolError("replay restarted more than 200 times")
+            if restarts > 400:
+                raise ToolError("replay restarted more than 400 times")
         self.cov["evaluations"] += len(results)
         return results
+
+    def _confirm_case(self, binpath, cases_path, idx, env, budget, tag):
+        """Re-run case idx alone (process started at idx, killed once idx has reported)."""
+        path = os.path.join(self.work, "hangconfirm-%s-%d.ndjson" % (tag, idx))
+        open(path, "w").close()
+        p = subprocess.Popen([binpath, "replay", cases_path, path, str(idx)], env=env,
+                             stdout=subprocess.DEVNULL, stderr=subprocess.DEVNULL)
+        t0 = time.time()
+        found = None
+        while time.time() - t0 < budget and found is None:
+            try:
+                p.wait(timeout=0.5)
+            except subprocess.TimeoutExpired:
+                pass
+            try:
+                with open(path) as f:
+                    for line in f:
+                        try:
+                            o = json.loads(line)
+                        except Exception:
+                            continue
+                        if o.get("i") == idx and "obs" in o:
+                            found = o["obs"]
+                            break
+            except OSError:
+                pass
+            if p.poll() is not None and found is None:
+                break
+        if p.poll() is None:
+            p.kill(); p.wait()
+        try:
+            os.remove(path)
+        except OSError:
+            pass
+        return found
 
     def record(self, binpath, out_name, args, timeout=1800):
         out = os.path.join(self.work, out_name)
